@@ -154,9 +154,15 @@ func verifH_C05_manifest_names_existing_files() {
 	oldBytes := verifManifestBytes(old)
 	verifFSCreate(mpath, oldBytes)
 	verifFSCreate(dir+"/"+old.specs[0].name.String(), []byte{1})
+	// the new manifest names one table file the old one does not: added to the old set, or REPLACING the old spec (the
+	// number of specs does not grow: what a conjoin or a garbage collection publishes)
 	next := verifManifestContents(0x21, 0x22, 0x03, 2)
+	replaces := verifNondetBool("new-spec-replaces-the-old-one")
+	if replaces {
+		next.specs = next.specs[1:]
+	}
 	nextBytes := verifManifestBytes(next)
-	newName := next.specs[1].name.String()
+	newName := next.specs[len(next.specs)-1].name.String()
 	state := verifConcrete(verifNondetIntRange("new-table-file", 0, 2), 4) // 0 missing, 1 table file, 2 archive
 	switch state {
 	case 1:
@@ -191,6 +197,7 @@ func verifH_C05_manifest_names_existing_files() {
 		}
 	}
 	verifCover(state == 0, "missing")
+	verifCover(verifAnd(state == 0, replaces), "missing-replacement")
 	verifCover(state == 2, "archive")
 	verifReach("end")
 }
@@ -224,6 +231,13 @@ func verifH_C02_journal_update() {
 	verifAssert(lerr == nil, "setup:lock")
 	j := &ChunkJournal{wr: wr, backing: &journalManifest{dir: dir, lock: lock}, reflogRingBuffer: newReflogRingBuffer(8), path: jpath, contents: cur}
 
+	// a chunk written (buffered) before the commit: the commit must make it durable too
+	data := []byte{0x05, 0x91}
+	full := make([]byte, len(data)+checksumSize)
+	copy(full, data)
+	writeUint32(full[len(data):], crc(data))
+	pending := CompressedChunk{H: verifHashConst(0x61), FullCompressedChunk: full, CompressedData: data}
+	verifAssert(wr.writeCompressedChunk(ctx, dherrors.FatalBehaviorError, pending) == nil, "setup:pending-chunk")
 	stale := verifNondetBool("caller-lock-is-stale")
 	lastLock := cur.lock
 	if stale {
@@ -231,6 +245,9 @@ func verifH_C02_journal_update() {
 	}
 	newTables := verifNondetBool("table-set-changes")
 	next := verifManifestContents(0x21, 0x22, 0x03, 1)
+	if verifNondetBool("root-unchanged") {
+		next.root = cur.root // a commit that only adds chunks (Commit(r, r)): still an acknowledged commit
+	}
 	next.specs[0].name = journalAddr
 	if newTables {
 		next.specs = append(next.specs, tableSpec{name: verifHashConst(0x41), chunkCount: 4})
@@ -251,9 +268,10 @@ func verifH_C02_journal_update() {
 	verifAssert(verifSameManifest(got, next), "commit:new-contents-returned")
 	image, ok := verifFSDurableData(jpath)
 	verifAssert(ok, "commit:journal-exists")
-	last, _, _, rerr := verifRecover(image, hash.Hash{})
+	last, _, sawPending, rerr := verifRecover(image, pending.H)
 	verifAssert(rerr == nil, "commit:durable-journal-replays")
 	verifAssert(last == next.root, "commit:acknowledged-root-survives-power-loss")
+	verifAssert(sawPending, "commit:chunk-written-before-the-commit-survives-power-loss")
 	if newTables {
 		dm, dok := verifFSDurable(mpath)
 		verifAssert(verifAnd(dok, verifBytesEq(dm, nextBytes)), "commit:new-table-set-is-in-the-durable-manifest")
@@ -265,7 +283,7 @@ func verifH_C02_journal_update() {
 			continue
 		}
 		l, _, _, e := verifRecover(ji, hash.Hash{})
-		if verifAnd(e == nil, l == next.root) {
+		if verifAnd(verifAnd(e == nil, l == next.root), next.root != cur.root) {
 			if newTables {
 				dm, dok := verifFSDurableAtSync(k, mpath)
 				verifAssert(verifAnd(dok, verifBytesEq(dm, nextBytes)), "crash:journal-never-shows-the-new-root-before-the-manifest-names-its-tables")
@@ -273,5 +291,59 @@ func verifH_C02_journal_update() {
 		}
 	}
 	verifCover(newTables, "table-set-changes")
+	verifReach("end")
+}
+
+// verifRacingManifest is a manifest with a concurrent writer: an in-memory compare-and-swap on the lock hash, in which
+// another store handle lands a commit (new root, new lock) right before each of the first |interlopers| Update calls.
+type verifRacingManifest struct {
+	cur         manifestContents
+	interlopers int
+	calls       int
+	roots       []hash.Hash // every root any writer acknowledged, in order
+}
+
+func (m *verifRacingManifest) Update(ctx context.Context, behavior dherrors.FatalBehavior, lastLock hash.Hash, next manifestContents, stats *Stats, writeHook func() error) (manifestContents, error) {
+	if m.calls < m.interlopers {
+		// the other writer's commit: same tables, the root moves
+		m.cur.root = verifHashConst(0x70 + byte(m.calls))
+		m.cur.lock = verifHashConst(0x80 + byte(m.calls))
+		m.roots = append(m.roots, m.cur.root)
+	}
+	m.calls++
+	if m.cur.lock == lastLock {
+		m.cur = next
+	}
+	return m.cur, nil
+}
+
+// H-C02-conjoin-never-moves-the-root: the manifest update of a background conjoin (conjoinOperation.updateManifest and
+// its optimistic retry loop) against a manifest on which another writer commits 0..2 times while the conjoin retries:
+// when the conjoin lands, the table set is the conjoined one and the root is still the LAST root any writer
+// acknowledged: a conjoin replaces table files, it never publishes a root.
+func verifH_C02_conjoin_never_moves_the_root() {
+	verifPanicIsViolation()
+	verifUnwind(64)
+	ctx := context.Background()
+	up := verifManifestContents(0x01, 0x02, 0x03, 3)
+	op := &conjoinOperation{cleanup: func() {}, conjoinees: []tableSpec{up.specs[0], up.specs[1]}, conjoined: tableSpec{name: verifHashConst(0x51), chunkCount: 7}}
+	m := &verifRacingManifest{cur: up, interlopers: verifConcrete(verifNondetIntRange("commits-by-another-writer", 0, 2), 4)}
+	m.roots = append(m.roots, up.root)
+	got, _, err := op.updateManifest(ctx, dherrors.FatalBehaviorError, up, m, &Stats{})
+	verifAssert(err == nil, "update-ok")
+	if err != nil {
+		return
+	}
+	verifObserve("calls", uint64(m.calls))
+	verifAssert(verifSameManifest(got, m.cur), "returns-what-is-in-the-manifest")
+	verifAssert(m.cur.root == m.roots[len(m.roots)-1], "root-is-the-last-acknowledged-root")
+	verifAssert(len(m.cur.specs) == 2, "conjoinees-replaced-by-the-conjoined-table")
+	hasConjoined, hasThird := false, false
+	for _, s := range m.cur.specs {
+		hasConjoined = verifOr(hasConjoined, s.name == op.conjoined.name)
+		hasThird = verifOr(hasThird, s.name == up.specs[2].name)
+	}
+	verifAssert(verifAnd(hasConjoined, hasThird), "table-set-is-conjoined-plus-untouched")
+	verifCover(m.interlopers == 2, "two-interlopers")
 	verifReach("end")
 }
